@@ -466,6 +466,17 @@ func (d *drv) step(raw json.RawMessage) (common.T, int64) {
 	}
 	var tag int64
 	json.Unmarshal(parts[0], &tag)
+	if tag < 0 { // quiet action: executed, not observed (the model op keeps the negative tag)
+		tag = -tag
+		op, code := d.stepTag(tag, parts)
+		l := op.([]common.T)
+		l[0] = -tag
+		return l, code
+	}
+	return d.stepTag(tag, parts)
+}
+
+func (d *drv) stepTag(tag int64, parts []json.RawMessage) (common.T, int64) {
 	num := func(i int) int64 {
 		var x int64
 		if err := json.Unmarshal(parts[i], &x); err != nil {
@@ -595,7 +606,9 @@ func TestDriver(t *testing.T) {
 		for _, raw := range k.Ops {
 			op, code := d.step(raw)
 			ops = append(ops, op)
-			obs = append(obs, d.observe(code))
+			if tag, ok := op.([]common.T)[0].(int64); !ok || tag >= 0 {
+				obs = append(obs, d.observe(code))
+			}
 		}
 		return common.L(k.U, ops), common.L(obs, d.residual())
 	})
